@@ -269,6 +269,9 @@ package dns
 //@ extern (*encoding/base64.Encoding).DecodeString
 //@   pure
 //@   fresh
+// ghost "len" of a strings.Builder is by definition the length of its buf field (what Len and String report), so a
+// zero Builder is empty by Go's zero-value rule and no function needs to assume it; Grow keeps the length
+//@ ghostfield strings.Builder len buf.len
 //@ extern (*strings.Builder).Len
 //@   ensures ret0 >= 0 && ret0 == ghost(b, "len")
 //@   pure
@@ -286,7 +289,7 @@ package dns
 //@   ensures ghost(b, "len") == old(ghost(b, "len")) + len(p)
 //@   modifies H.strings.Builder.addr.v@b H.strings.Builder.buf.cap@b H.strings.Builder.buf.len@b H.strings.Builder.buf.off@b H.strings.Builder.buf.ref@b G.strings.Builder.len@b
 //@ extern (*strings.Builder).Grow
-//@   modifies H.strings.Builder.addr.v@b H.strings.Builder.buf.cap@b H.strings.Builder.buf.len@b H.strings.Builder.buf.off@b H.strings.Builder.buf.ref@b
+//@   modifies H.strings.Builder.addr.v@b H.strings.Builder.buf.cap@b H.strings.Builder.buf.off@b H.strings.Builder.buf.ref@b
 
 // asn1.Unmarshal fills the value it is pointed at and only reads the octets (trusted)
 //@ extern encoding/asn1.Unmarshal
